@@ -113,6 +113,8 @@ def run(ctx, report: Report) -> None:
     r5 = report.rule('C03-R5', 'select / iselect / select_one / limit / filter / closest agree with match() element by element (bounded)', floor=5)
     from .e2ematch import api_consistency_table
     api_consistency_table(ctx, r5, deep=(ctx.tier == 'thorough'))
+    from .e2ematch import one_call_table
+    one_call_table(ctx, r5, deep=(ctx.tier == 'thorough'))
 
     # ---- R6 (the whole pipeline by interpretation, bounded) --------------------------------------------------------------
     r6 = report.rule('C03-R6', 'results do not depend on the element a call starts from, inside and outside foreign-namespace subtrees (bounded)', floor=10)
